@@ -13,7 +13,7 @@ use std::{
     hash::{Hash, Hasher},
     path::{Path, PathBuf},
     sync::Mutex,
-    time::Instant,
+    time::{Duration, Instant},
 };
 
 use proptest::{
@@ -98,6 +98,16 @@ pub trait Prop: Sync + Send + 'static {
     fn cases(&self, tier: Tier) -> u32;
     /// run the oracle on one case
     fn check(&self, case: &Self::Case) -> Obs;
+    /// a single case that runs longer than this is a hang (see `hang_is_violation`)
+    fn case_time_limit_s(&self) -> u64 {
+        300
+    }
+    /// true only where "returns in bounded time" is the property itself (C14): the hang is then
+    /// reported as a violation with the case as replay; everywhere else it ends the run as
+    /// inconclusive (exit 2)
+    fn hang_is_violation(&self) -> bool {
+        false
+    }
     /// cases that are always run first (regressions of fixed defects, hand-picked corners)
     fn fixed_cases(&self) -> Vec<Self::Case> {
         Vec::new()
@@ -125,6 +135,10 @@ pub trait Part: Sync + Send {
     fn name(&self) -> &'static str;
     fn run(&self, ctx: &RunCtx) -> PartReport;
     fn replay(&self, case: &Value) -> Result<Obs, String>;
+    /// (seconds, is a hang the violation itself?) for one replayed case
+    fn replay_limit(&self) -> (u64, bool) {
+        (300, false)
+    }
 }
 
 pub struct RunCtx {
@@ -234,7 +248,130 @@ impl Acc {
 }
 
 /// Evaluate one case: returns the first failure that is not a known finding.
+// ---- per-case watchdog -------------------------------------------------------------------------
+
+struct Watched {
+    since: Instant,
+    limit: Duration,
+    hang_is_violation: bool,
+    property: &'static str,
+    part: &'static str,
+    seed: u64,
+    tier: Tier,
+    case: Box<dyn Fn() -> Value + Send>,
+}
+
+static WATCH: Mutex<Option<std::collections::HashMap<std::thread::ThreadId, Watched>>> = Mutex::new(None);
+
+/// Started once per process: a case that overruns its limit cannot be interrupted (it may sit in a
+/// loop that never yields), so the monitor reports and ends the process itself.
+fn start_watchdog() {
+    static STARTED: std::sync::Once = std::sync::Once::new();
+    STARTED.call_once(|| {
+        *WATCH.lock().unwrap() = Some(Default::default());
+        std::thread::spawn(|| loop {
+            std::thread::sleep(Duration::from_millis(250));
+            let mut guard = WATCH.lock().unwrap();
+            let Some(map) = guard.as_mut() else { continue };
+            let Some(w) = map.values().find(|w| w.since.elapsed() > w.limit) else { continue };
+            let case = (w.case)();
+            if w.hang_is_violation {
+                let root = verif_root();
+                let dir = root.join("replays");
+                let _ = std::fs::create_dir_all(&dir);
+                let msg = format!("the call did not return within {} s", w.limit.as_secs());
+                let body = json!({
+                    "property": w.property, "part": w.part, "signature": "never-returns",
+                    "message": msg, "seed": w.seed, "tier": w.tier.as_str(), "case": case,
+                });
+                let mut h = DefaultHasher::new();
+                body.to_string().hash(&mut h);
+                let path = dir.join(format!("{}-{}-{}-{:08x}.json", w.property, w.part, w.seed, h.finish() as u32));
+                let _ = std::fs::write(&path, serde_json::to_string_pretty(&body).unwrap());
+                eprintln!("violation in part {}: [never-returns] {msg}", w.part);
+                println!("VIOLATION property={} replay={}", w.property, path.display());
+                std::process::exit(1);
+            }
+            eprintln!(
+                "INCONCLUSIVE: a case of {}:{} has been running for more than {} s (harness watchdog); case: {}",
+                w.property, w.part, w.limit.as_secs(), case
+            );
+            std::process::exit(2);
+        });
+    });
+}
+
+/// Watch the calling thread until the guard is dropped.
+pub struct WatchGuard(std::thread::ThreadId);
+
+impl Drop for WatchGuard {
+    fn drop(&mut self) {
+        if let Some(map) = WATCH.lock().unwrap().as_mut() {
+            map.remove(&self.0);
+        }
+    }
+}
+
+#[allow(clippy::too_many_arguments)]
+pub fn watch_case(
+    property: &'static str,
+    part: &'static str,
+    limit_s: u64,
+    hang_is_violation: bool,
+    seed: u64,
+    tier: Tier,
+    case: Box<dyn Fn() -> Value + Send>,
+) -> WatchGuard {
+    start_watchdog();
+    let tid = std::thread::current().id();
+    let w = Watched {
+        since: Instant::now(),
+        limit: Duration::from_secs(limit_s),
+        hang_is_violation,
+        property,
+        part,
+        seed,
+        tier,
+        case,
+    };
+    if let Some(map) = WATCH.lock().unwrap().as_mut() {
+        map.insert(tid, w);
+    }
+    WatchGuard(tid)
+}
+
 fn eval_case<P: Prop>(
+    prop: &P,
+    ctx: &RunCtx,
+    case: &P::Case,
+    acc: &mut Acc,
+) -> Option<(String, String)> {
+    start_watchdog();
+    let tid = std::thread::current().id();
+    {
+        let owned = case.clone();
+        let w = Watched {
+            since: Instant::now(),
+            limit: Duration::from_secs(prop.case_time_limit_s()),
+            hang_is_violation: prop.hang_is_violation(),
+            property: ctx.property,
+            part: prop.name(),
+            seed: ctx.seed,
+            tier: ctx.tier,
+            case: Box::new(move || serde_json::to_value(&owned).unwrap_or(Value::Null)),
+        };
+        if let Some(map) = WATCH.lock().unwrap().as_mut() {
+            map.insert(tid, w);
+        }
+    }
+    let r = eval_case_inner(prop, ctx, case, acc);
+    if let Some(map) = WATCH.lock().unwrap().as_mut() {
+        map.remove(&tid);
+    }
+    r
+}
+
+fn eval_case_inner<P: Prop>(
     prop: &P,
     ctx: &RunCtx,
     case: &P::Case,
@@ -410,6 +547,9 @@ impl<P: Prop> Part for PropPart<P> {
         let case: P::Case =
             serde_json::from_value(case.clone()).map_err(|e| format!("bad replay case: {e}"))?;
         Ok(self.0.check(&case))
+    }
+    fn replay_limit(&self) -> (u64, bool) {
+        (self.0.case_time_limit_s(), self.0.hang_is_violation())
     }
 }
 
@@ -671,7 +811,29 @@ pub fn replay_property(prop: &Property, file: &Path) -> i32 {
         eprintln!("no part '{part_name}' in {}", prop.id);
         return 2;
     };
-    match part.replay(&v["case"]) {
+    start_watchdog();
+    {
+        let (limit, hang_is_violation) = part.replay_limit();
+        let owned = v["case"].clone();
+        let w = Watched {
+            since: Instant::now(),
+            limit: Duration::from_secs(limit),
+            hang_is_violation,
+            property: prop.id,
+            part: part.name(),
+            seed: v["seed"].as_u64().unwrap_or(0),
+            tier: Tier::Quick,
+            case: Box::new(move || owned.clone()),
+        };
+        if let Some(map) = WATCH.lock().unwrap().as_mut() {
+            map.insert(std::thread::current().id(), w);
+        }
+    }
+    let replayed = part.replay(&v["case"]);
+    if let Some(map) = WATCH.lock().unwrap().as_mut() {
+        map.remove(&std::thread::current().id());
+    }
+    match replayed {
         Err(e) => {
             eprintln!("{e}");
             2
